@@ -1,6 +1,7 @@
 import Proofs.Delta
 import Proofs.DeltaRoot
 import Proofs.DeltaFlat
+import Proofs.DeltaList
 import Properties.C02
 /-!
 # C01 — applying `Delta(DeepDiff(t1, t2))` to `t1` reproduces `t2`
@@ -170,5 +171,45 @@ example : let kvs1 : List (PyVal × PyVal) := [(.str "a", .int 1), (.str "b", .s
     StrKeys kvs1 ∧ StrKeys kvs2 ∧ (kvs1.map (·.1)).Nodup ∧ (kvs2.map (·.1)).Nodup ∧
     (∀ p ∈ kvs1, isBasic p.2 = true) ∧ (∀ p ∈ kvs2, isBasic p.2 = true) := by
   simp [StrKeys, isBasic]
+
+/-! ### lists of scalars compared position by position, end to end -/
+
+/-- **Round trip for every pair of lists of scalars in positional mode** (`zip_ordered_iterables=True`): any lengths,
+any mix of changed values, changed types, a removed tail or an appended tail, every configuration without path
+restrictions, directed or not, with or without `always_include_values`.  The changes are item assignments at pairwise
+different indexes, the removed items are deleted from the largest index down (`Delta` sorts their paths in reverse)
+and the added ones appended from the smallest index up; the result is a **list** whose items are `==` those of `t2`,
+with no error logged. -/
+theorem C01_list_positional_roundtrip (cfg : DCfg) (hp : Diff.Plain cfg) (hz : cfg.zip = true) (al : Align) (hashOf : PyVal → String)
+    (directed always : Bool) (xs ys : List PyVal) (hbx : ∀ x ∈ xs, isBasic x = true) (hby : ∀ y ∈ ys, isBasic y = true) :
+    ∃ r, applyDelta false (buildDelta directed always (.list xs) (.list ys) (deepDiff cfg al hashOf (.list xs) (.list ys))) (.list xs)
+        = { root := .list r } ∧ pyEqL r ys = true :=
+  list_roundtrip cfg hp al hashOf directed always xs ys hbx hby (list_diffV_zip cfg hp hz al hashOf xs ys hbx)
+
+/-- **The same in the default mode whenever the pairwise pass is the one DeepDiff keeps**: the difflib pass reports at
+least one entry and at least as many as the pairwise pass (and, when it reports exactly one, the pairwise pass reports
+none), whatever opcodes the alignment oracle returns. -/
+theorem C01_list_pairwise_roundtrip (cfg : DCfg) (hp : Diff.Plain cfg) (hz : cfg.zip = false) (al : Align) (hashOf : PyVal → String)
+    (directed always : Bool) (xs ys : List PyVal) (hbx : ∀ x ∈ xs, isBasic x = true) (hby : ∀ y ∈ ys, isBasic y = true)
+    (h1 : 1 ≤ (opcodeEntries [] xs ys (al xs ys)).length)
+    (h2 : (opcodeEntries [] xs ys (al xs ys)).length = 1 → (listT 0 xs ys).length = 0)
+    (h3 : (listT 0 xs ys).length ≤ (opcodeEntries [] xs ys (al xs ys)).length) :
+    ∃ r, applyDelta false (buildDelta directed always (.list xs) (.list ys) (deepDiff cfg al hashOf (.list xs) (.list ys))) (.list xs)
+        = { root := .list r } ∧ pyEqL r ys = true :=
+  list_roundtrip cfg hp al hashOf directed always xs ys hbx hby (list_diffV_pairwise cfg hp hz al hashOf xs ys hbx hby h1 h2 h3)
+
+/-- the hypotheses of the default-mode statement are met: `[1, 2, 3]` against `[4, 5, 6]` with one `replace` opcode -/
+example : let xs : List PyVal := [.int 1, .int 2, .int 3]
+    let ys : List PyVal := [.int 4, .int 5, .int 6]
+    let ops : List Opcode := [{ tag := "replace", i1 := 0, i2 := 3, j1 := 0, j2 := 3 }]
+    1 ≤ (opcodeEntries [] xs ys ops).length ∧ ((opcodeEntries [] xs ys ops).length = 1 → (listT 0 xs ys).length = 0) ∧
+    (listT 0 xs ys).length ≤ (opcodeEntries [] xs ys ops).length := by
+  intro xs ys ops
+  have e1 : (opcodeEntries [] xs ys ops).length = 3 := by
+    simp [xs, ys, ops, opcodeEntries, pairBasic, leafDiff, typeName, pyEq, numEq, numOf, pow10]
+  have e2 : (listT 0 xs ys).length = 3 := by
+    simp [xs, ys, listT, childTreeI, leafDiff, typeName, numEq, numOf, pow10]
+  rw [e1, e2]
+  omega
 
 end Delta
